@@ -46,6 +46,8 @@ type Config struct {
 	PermutePicks bool
 	// Logger handed to the schemes (default: discard everything)
 	Logger tss.Logger
+	// LiveTable: the Membership function returns one and the same map object on every call (see MutateLive)
+	LiveTable bool
 }
 
 type Cluster struct {
@@ -60,6 +62,7 @@ type Cluster struct {
 	session  uint32
 	Backends map[uint16][]*backend.Backend
 	picks    map[string][]uint16
+	live     map[tss.UniversalID]tss.PartyID // the table handed out when Config.LiveTable is set
 }
 
 func Hash(b []byte) []byte { h := sha256.Sum256(b); return h[:] }
@@ -74,9 +77,17 @@ func New(cfg Config) *Cluster {
 	}
 	sort.Slice(nodes, func(i, j int) bool { return nodes[i] < nodes[j] })
 	// the membership function reads the CURRENT map (SetMap may replace the party assignment between sessions)
+	c.live = map[tss.UniversalID]tss.PartyID{}
+	for u, p := range cfg.Map {
+		c.live[tss.UniversalID(u)] = tss.PartyID(p)
+	}
 	membership := func() map[tss.UniversalID]tss.PartyID {
 		c.mu.Lock()
 		defer c.mu.Unlock()
+		if cfg.LiveTable {
+			// an application that hands out its own table, not a copy (and may update it in place later: MutateLive)
+			return c.live
+		}
 		m := map[tss.UniversalID]tss.PartyID{}
 		for u, p := range c.Cfg.Map {
 			m[tss.UniversalID(u)] = tss.PartyID(p)
@@ -146,6 +157,20 @@ func (c *Cluster) SetMap(m map[uint16]uint16) {
 		nm[u] = p
 	}
 	c.Cfg.Map = nm
+	for k := range c.live {
+		delete(c.live, k)
+	}
+	for u, p := range nm {
+		c.live[tss.UniversalID(u)] = tss.PartyID(p)
+	}
+}
+
+// MutateLive lets the "application" update, in place, the table its Membership function hands out (Config.LiveTable). The caller
+// must pick a moment at which no KeyGen / Sign call is just starting (the library reads the table it was handed at call entry).
+func (c *Cluster) MutateLive(f func(m map[tss.UniversalID]tss.PartyID)) {
+	c.mu.Lock()
+	defer c.mu.Unlock()
+	f(c.live)
 }
 
 // NextSession gives the backends created from now on a new session id (and optionally a new script).
